@@ -395,6 +395,21 @@ def run_job(job):
                     i = indlib.equal_values(np.asarray(via, dtype=float), np.asarray(direct, dtype=float), rel=0.0, absl=0.0)
                     if i is not None:
                         J.bad(f'ma:{mt}:{nm}', f'ma(period={p}, matype={mt}, source_type={st}) differs from {nm} at index {i}', index=i)
+                    # the band indicators take the same selector argument: their middle band is that moving average of the
+                    # selected source (volume-weighted types included)
+                    if mt not in NO_PERIOD:
+                        for bname, bcall in (('bollinger_bands', lambda: ta.bollinger_bands(X, p, matype=mt, source_type=st, sequential=True)),
+                                             ('keltner', lambda: ta.keltner(X, p, matype=mt, source_type=st, sequential=True))):
+                            try:
+                                mid_ = np.asarray(bcall().middleband, dtype=float)
+                            except Exception:
+                                J.c('band_call_raises')
+                                continue
+                            J.c('band_middle_checks')
+                            i = indlib.equal_values(mid_, np.asarray(direct, dtype=float), rel=1e-12, absl=1e-12 * xs)
+                            if i is not None:
+                                J.bad(f'{bname}:middle:matype{mt}', f'{bname}(period={p}, matype={mt}, source_type={st}).middleband differs '
+                                      f'from {nm} of the same source at index {i}: {mid_[i]!r} vs {np.asarray(direct, dtype=float)[i]!r}', index=i)
                     # non-sequential too
                     s1 = ta.ma(X, p, matype=mt, source_type=st, sequential=False)
                     s2 = f(X, source_type=st, sequential=False) if mt in NO_PERIOD else f(X, p, source_type=st, sequential=False)
